@@ -903,3 +903,298 @@ func BadAlwaysDropSourceHeader(in *io.Reader) ([]byte, error) {
 	*in = bytes.NewReader(bytes.Clone(buf[end+1 : n]))
 	return bytes.Clone(buf[:end]), nil
 }
+
+// ---- helpers followed by the rules ----------------------------------------
+
+// openWith authenticates in a helper and returns the plaintext.
+func openWith(k key, data []byte, num uint32, last bool) ([]byte, error) {
+	plain, err := k.aead.Open(data[:0], k.nonce(num, last), data, nil)
+	if err != nil {
+		return nil, errFailed
+	}
+	return plain, nil
+}
+
+// openOrSkip reports success for a stub without authenticating it.
+func openOrSkip(k key, data []byte, num uint32, last bool) ([]byte, error) {
+	if len(data) <= 16 {
+		return nil, nil
+	}
+	plain, err := k.aead.Open(data[:0], k.nonce(num, last), data, nil)
+	if err != nil {
+		return nil, errFailed
+	}
+	return plain, nil
+}
+
+func GoodHelperOpenSeg(k key, out io.Writer, data []byte, num uint32, last bool) error {
+	plain, err := openWith(k, data, num, last)
+	if err != nil {
+		return err
+	}
+	_, err = out.Write(plain)
+	return err
+}
+
+func BadHelperOpenSkipSeg(k key, out io.Writer, data []byte, num uint32, last bool) error {
+	plain, err := openOrSkip(k, data, num, last)
+	if err != nil {
+		return err
+	}
+	_, err = out.Write(plain)
+	return err
+}
+
+// cipherAndNonce returns the nonce out of a tuple.
+func cipherAndNonce(k key, num uint32, last bool) (cipher.AEAD, []byte, error) {
+	if k.aead == nil {
+		return nil, nil, errors.New("no cipher")
+	}
+	return k.aead, k.nonce(num, last), nil
+}
+
+func GoodTupleNonceSeg(k key, out io.Writer, data []byte, num uint32, last bool) error {
+	aead, nonce, err := cipherAndNonce(k, num, last)
+	if err != nil {
+		return err
+	}
+	plain, err := aead.Open(data[:0], nonce, data, nil)
+	if err != nil {
+		return errFailed
+	}
+	_, err = out.Write(plain)
+	return err
+}
+
+// GoodInlineNonceSeg builds the nonce in place.
+func GoodInlineNonceSeg(k key, out io.Writer, data []byte, num uint32, last bool) error {
+	n := make([]byte, 12)
+	copy(n[:7], k.prefix)
+	binary.BigEndian.PutUint32(n[7:11], num)
+	if last {
+		n[11] = 1
+	}
+	plain, err := k.aead.Open(data[:0], n, data, nil)
+	if err != nil {
+		return errFailed
+	}
+	_, err = out.Write(plain)
+	return err
+}
+
+// fillOK reads a segment plus the look-ahead byte; EOF is not an error.
+func fillOK(in io.Reader, dst []byte, n int) (int, error) {
+	var err error
+	for n < len(dst) && err == nil {
+		var k int
+		k, err = in.Read(dst[n:])
+		n += k
+	}
+	if err != nil && !errors.Is(err, io.EOF) {
+		return n, err
+	}
+	return n, nil
+}
+
+// fillLossy forgets the error when it has data.
+func fillLossy(in io.Reader, dst []byte, n int) (int, error) {
+	var err error
+	for n < len(dst) && err == nil {
+		var k int
+		k, err = in.Read(dst[n:])
+		n += k
+	}
+	if err != nil && !errors.Is(err, io.EOF) && n == 0 {
+		return n, err
+	}
+	return n, nil
+}
+
+func fail(pw *io.PipeWriter, err error) { _ = pw.CloseWithError(err) }
+
+func failQuietly(pw *io.PipeWriter, err error) {
+	_ = err
+	_ = pw.Close()
+}
+
+func isFatal(err error) bool { return err != nil && !errors.Is(err, io.EOF) }
+
+// GoodHelpersLoop: read helper, close helper, deferred clean close.
+func GoodHelpersLoop(src io.Reader, pw *io.PipeWriter, process procFn, size int) {
+	defer pw.Close()
+	buf := make([]byte, size+1)
+	have := 0
+	for idx := uint32(0); ; idx++ {
+		var err error
+		have, err = fillOK(src, buf, have)
+		if err != nil {
+			fail(pw, err)
+			return
+		}
+		final := have <= size
+		n := have
+		if !final {
+			n = size
+		}
+		if perr := process(pw, buf[:n], idx, final); perr != nil {
+			fail(pw, fmt.Errorf("segment %d: %w", idx, perr))
+			return
+		}
+		if final {
+			return
+		}
+		if idx == 1<<32-1 {
+			fail(pw, errTooLarge)
+			return
+		}
+		buf[0] = buf[size]
+		have = 1
+	}
+}
+
+func BadLossyReadHelperLoop(src io.Reader, pw *io.PipeWriter, process procFn, size int) {
+	defer pw.Close()
+	buf := make([]byte, size+1)
+	have := 0
+	for idx := uint32(0); ; idx++ {
+		var err error
+		have, err = fillLossy(src, buf, have)
+		if err != nil {
+			fail(pw, err)
+			return
+		}
+		final := have <= size
+		n := have
+		if !final {
+			n = size
+		}
+		if perr := process(pw, buf[:n], idx, final); perr != nil {
+			fail(pw, perr)
+			return
+		}
+		if final {
+			return
+		}
+		if idx == 1<<32-1 {
+			fail(pw, errTooLarge)
+			return
+		}
+		buf[0] = buf[size]
+		have = 1
+	}
+}
+
+func BadQuietCloseHelperLoop(src io.Reader, pw *io.PipeWriter, process procFn, size int) {
+	buf := make([]byte, size+1)
+	have := 0
+	for idx := uint32(0); ; idx++ {
+		var rerr error
+		for have < size+1 && rerr == nil {
+			var k int
+			k, rerr = src.Read(buf[have : size+1])
+			have += k
+		}
+		if isFatal(rerr) {
+			failQuietly(pw, rerr)
+			return
+		}
+		final := have <= size
+		n := have
+		if !final {
+			n = size
+		}
+		if perr := process(pw, buf[:n], idx, final); perr != nil {
+			fail(pw, perr)
+			return
+		}
+		if final {
+			break
+		}
+		if idx == 1<<32-1 {
+			fail(pw, errTooLarge)
+			return
+		}
+		buf[0] = buf[size]
+		have = 1
+	}
+	pw.Close()
+}
+
+// GoodReturnsErrLoop reports its outcome to its caller, which closes the pipe.
+func GoodReturnsErrLoop(src io.Reader, w io.Writer, process procFn, size int) error {
+	buf := make([]byte, size+1)
+	have := 0
+	for idx := uint32(0); ; idx++ {
+		var rerr error
+		for have < size+1 && rerr == nil {
+			var k int
+			k, rerr = src.Read(buf[have : size+1])
+			have += k
+		}
+		if isFatal(rerr) {
+			return rerr
+		}
+		final := have <= size
+		n := have
+		if !final {
+			n = size
+		}
+		if perr := process(w, buf[:n], idx, final); perr != nil {
+			return fmt.Errorf("segment %d: %w", idx, perr)
+		}
+		if final {
+			return nil
+		}
+		if idx == 1<<32-1 {
+			return errTooLarge
+		}
+		buf[0] = buf[size]
+		have = 1
+	}
+}
+
+func driveReturnsErr(src io.Reader, pw *io.PipeWriter, process procFn, size int) {
+	if err := GoodReturnsErrLoop(src, pw, process, size); err != nil {
+		_ = pw.CloseWithError(err)
+		return
+	}
+	_ = pw.Close()
+}
+
+// GoodReturnsErr2Loop is fine itself; its caller below ignores the outcome.
+func GoodReturnsErr2Loop(src io.Reader, w io.Writer, process procFn, size int) error {
+	buf := make([]byte, size+1)
+	have := 0
+	for idx := uint32(0); ; idx++ {
+		var rerr error
+		for have < size+1 && rerr == nil {
+			var k int
+			k, rerr = src.Read(buf[have : size+1])
+			have += k
+		}
+		if isFatal(rerr) {
+			return rerr
+		}
+		final := have <= size
+		n := have
+		if !final {
+			n = size
+		}
+		if perr := process(w, buf[:n], idx, final); perr != nil {
+			return perr
+		}
+		if final {
+			return nil
+		}
+		if idx == 1<<32-1 {
+			return errTooLarge
+		}
+		buf[0] = buf[size]
+		have = 1
+	}
+}
+
+func BadIgnoresLoopOutcome(src io.Reader, pw *io.PipeWriter, process procFn, size int) {
+	_ = GoodReturnsErr2Loop(src, pw, process, size)
+	_ = pw.Close()
+}
